@@ -91,6 +91,10 @@ def build(u):
     for f, name, is_query in TAKES:
         it = rl.find_type(f, u.src(f), "struct", name)
         texts[name] = it.text
+    # structs that only have a clear_* function under contract (their field types take part in the opaque-type scan)
+    for f, name in [("src/query/delete.rs", "DeleteStatement"), ("src/query/update.rs", "UpdateStatement")]:
+        texts[name] = rl.find_type(f, u.src(f), "struct", name).text
+        known.add(name)
     # opaque declarations for every other type mentioned in the struct bodies
     mentioned = set()
     for name, t in texts.items():
@@ -134,6 +138,20 @@ def build(u):
                                        ("clear_order_by", "orders", "final(self).orders@.len() == 0", "impl OrderedStatement for SelectStatement")]:
                 u.fn(f, blk, fn, props=P, rules=[r_retself, make_r_sub("R-inherent", r"^(\s*)pub fn", r"\1fn", flags=re.M, min_count=0)], key="SelectStatement::" + fn, vpath="SelectStatement::" + fn,
                      spec="ensures\n    // removes exactly that clause\n    %s,\n    // and nothing else (frame over every other field of the GENERATED field list)\n    %s," % (post, frame(fld)))
+        u.emit("}\n")
+    # clear_order_by of the other ordered statements: removes exactly the ordering (whole-struct frame over the GENERATED field list)
+    for f, name, fld in [("src/query/delete.rs", "DeleteStatement", "orders"), ("src/query/update.rs", "UpdateStatement", "orders"), ("src/query/window.rs", "WindowStatement", "order_by")]:
+        if name in structs:
+            fl = structs[name]
+            u.emit("impl %s {\n" % name)
+        else:
+            text = u.type_item(f, "struct", name, props=P, rules=[r_vis, r_path])
+            fl = fields_of(text)
+            u.emit("impl %s {\n" % name)
+        allf = [n for n, _ in fl]
+        u.fn(f, "impl OrderedStatement for %s" % name, "clear_order_by", props=P, rules=[r_retself, make_r_sub("R-inherent", r"^(\s*)pub fn", r"\1fn", flags=re.M, min_count=0)],
+             key="%s::clear_order_by" % name, vpath="%s::clear_order_by" % name,
+             spec="ensures\n    // removes exactly that clause\n    final(self).%s@.len() == 0,\n    // and nothing else\n    %s," % (fld, ", ".join("final(self).%s == old(self).%s" % (n, n) for n in allf if n != fld)))
         u.emit("}\n")
     u.spec("// #[derive(Default)] on SelectStatement: every field Default (trusted)\n#[verifier::external_body]\nfn vdefault_select() -> (r: SelectStatement) ensures SelectStatement::is_new(r) { unimplemented!() }\n", "take::default", props=P)
     u.emit("} // verus!\nfn main() {}\n")
